@@ -110,6 +110,8 @@ def run(ctx):
     chk.rule('A4O', 'no signed arithmetic on integers converted from input text without a dominating range check', floor=1)
     chk.rule('H1', 'every loop changes, on every way round, something one of its exit conditions depends on '
                    '(necessary for termination; not a termination proof)', floor=20)
+    chk.rule('A10', 'no heap block is released twice, returned or otherwise used after free() (typestate over local pointers '
+                    'and parameters, every path)', floor=15)
     chk.rule('A9', 'an automatic char array or malloc()ed buffer is written (store, or a callee that may write it) on every '
                    'path before it is read (load, const-pointee / %s argument, strcat destination, reading callee)', floor=30)
     chk.rule('A5', 'results that may be NULL / buffers only valid on success are tested before use', floor=40)
@@ -264,6 +266,9 @@ def run(ctx):
                        's' if hit and len(hit[0]) != 1 else '', '; '.join(render(c)[:60] for c in hit[0]) if hit else ''),
                    how='every cycle assigns a variable of an exit condition, or the condition itself advances state')
     chk.count('loops_checked', nloops)
+    # ---- A10: released blocks are left alone ------------------------------------------------------------------
+    common.release_rule(ctx, reach, 'A10', 'a double free or a use after free corrupts the allocator state; glibc usually '
+                        'detects it and aborts the process')
     # ---- A9: buffers are written before they are read -------------------------------------------------
     from engine.uninit import UninitAnalysis
     ua = UninitAnalysis(prog)
